@@ -85,6 +85,56 @@ fn r_atanh(z: C) -> C {
     scale(csub(r_ln(cadd(ONE, z)), r_ln(csub(ONE, z))), 0.5)
 }
 
+/// cancellation factor (|a| + |b|) / |a + b| of a sum
+fn canc(a: C, b: C) -> f64 {
+    let d = cabs(cadd(a, b));
+    if d == 0.0 {
+        f64::INFINITY
+    } else {
+        (cabs(a) + cabs(b)) / d
+    }
+}
+/// Rounding-error amplification (in units of eps, absolute error of the result) of the logarithmic formula each
+/// inverse function is defined by, evaluated at the actual argument: the cancellation inside the logarithm's
+/// argument and the conditioning of the square root next to its branch point.  Any implementation of the same
+/// formula in double precision has an error of this order, in either half plane - and not more.
+fn amp_asin_like(z: C, plus: bool) -> f64 {
+    // ln( i z + sqrt(1 - z^2) )  (plus = false)   /   ln( z + sqrt(z^2 + 1) )  (plus = true)
+    let z2 = cmul(z, z);
+    let w = if plus { cadd(z2, ONE) } else { csub(ONE, z2) };
+    let s = r_sqrt(w);
+    let lead = if plus { z } else { cmul(I, z) };
+    let u = cadd(lead, s);
+    let ew = (1.0 + cabs(z2)) / cabs(w).max(1e-300);
+    (cabs(lead) + cabs(s) * (1.0 + ew)) / cabs(u).max(1e-300) + canc(lead, s)
+}
+fn amp_acosh(z: C) -> f64 {
+    let (a, b) = (csub(z, ONE), cadd(z, ONE));
+    let s = cmul(r_sqrt(a), r_sqrt(b));
+    let u = cadd(z, s);
+    let e = (1.0 + cabs(z)) / cabs(a).max(1e-300) + (1.0 + cabs(z)) / cabs(b).max(1e-300);
+    (cabs(z) + cabs(s) * (1.0 + e)) / cabs(u).max(1e-300) + canc(z, s)
+}
+fn amp_atan_like(z: C, hyperbolic: bool) -> f64 {
+    // ln(1 - i z) - ln(1 + i z)   /   ln(1 + z) - ln(1 - z)
+    let t = if hyperbolic { z } else { cmul(I, z) };
+    let (a, b) = (cadd(ONE, t), csub(ONE, t));
+    (1.0 + cabs(t)) / cabs(a).max(1e-300) + (1.0 + cabs(t)) / cabs(b).max(1e-300) + cabs(r_ln(a)) + cabs(r_ln(b))
+}
+/// conditioning |w g'(w)| of a reference function, estimated by a relative perturbation in two directions
+fn cond_of(g: fn(C) -> C, w: C) -> f64 {
+    let eta = 1e-7;
+    let g0 = g(w);
+    let d1 = dist(g(cmul(w, (1.0 + eta, 0.0))), g0);
+    let d2 = dist(g(cmul(w, (1.0, eta))), g0);
+    let c = d1.max(d2) / eta;
+    if c.is_finite() {
+        c
+    } else {
+        f64::INFINITY
+    }
+}
+
 fn c(z: C) -> Cmplx {
     Cmplx::new(z.0, z.1)
 }
@@ -175,7 +225,7 @@ impl<'a> Ctx<'a> {
 /// (5 seeds): the worst observed multiplier per check is listed in DESIGN.md section 5/C14; every K below
 /// leaves >= 100x head-room.
 const K_FWD: f64 = 400.0;
-const K_INV: f64 = 4000.0;
+const K_INV: f64 = 100.0;
 
 fn near_cut_discontinuity(f: fn(C) -> C, z: C) -> bool {
     // the reference changes by O(1) across the axis the point lies on => z is on a cut of f
@@ -281,7 +331,6 @@ fn run(case: &mut Case) -> Result<Outcome, String> {
     // amplification of the logarithmic formulas: cancellation in z + sqrt(z^2 +- 1) costs ~|z|^2, the
     // square root next to a branch point costs 1/sqrt(distance)
     let bp = bp_dist(z).max(1e-300);
-    let amp_inv = (1.0 + az * az + 1.0 / (az * az)) * (1.0 + 1.0 / bp.sqrt());
     let singular = bp < 1e-6 * 1.0; // logarithmic singularities of atan/atanh/acot/acoth at +-i, +-1 and of the 1/z family at 0
     let zi = r_inv(z);
     struct Inv {
@@ -323,6 +372,20 @@ fn run(case: &mut Case) -> Result<Outcome, String> {
             cx.must("inverse function finite", false, || format!("{}(z) = {:?}", iv.name, iv.got));
             continue;
         }
+        // error budget of the defining formula at this very argument (absolute, in units of eps)
+        let reciprocal = matches!(iv.name, "asec" | "acsc" | "acot" | "asech" | "acsch" | "acoth");
+        let base_amp = match iv.name {
+            "asin" | "acos" | "asec" | "acsc" => amp_asin_like(iv.at, false),
+            "asinh" | "acsch" => amp_asin_like(iv.at, true),
+            "acosh" | "asech" => amp_acosh(iv.at),
+            "atan" | "acot" => amp_atan_like(iv.at, false),
+            _ => amp_atan_like(iv.at, true),
+        };
+        let amp_inv = base_amp + if reciprocal { cond_of(iv.refv, iv.at) } else { 0.0 } + cabs((iv.refv)(iv.at));
+        if !amp_inv.is_finite() {
+            skipped_sing = true;
+            continue;
+        }
         // right inverse through the reference forward function
         let back = (iv.fwd)(iv.got);
         if fin(back) {
@@ -330,7 +393,12 @@ fn run(case: &mut Case) -> Result<Outcome, String> {
                 "asin" => "sin(asin z) = z", "acos" => "cos(acos z) = z", "atan" => "tan(atan z) = z", "asec" => "sec(asec z) = z", "acsc" => "csc(acsc z) = z", "acot" => "cot(acot z) = z",
                 "asinh" => "sinh(asinh z) = z", "acosh" => "cosh(acosh z) = z", "atanh" => "tanh(atanh z) = z", "asech" => "sech(asech z) = z", "acsch" => "csch(acsch z) = z", _ => "coth(acoth z) = z",
             };
-            cx.chk(k_name, dist(back, iv.arg), cabs(iv.arg) * amp_inv * (1.0 + cabs(iv.got)), K_INV, || format!("{}(z) = {:?}, mapped back to {:?}", iv.name, iv.got, back));
+            // |f'(g)| by a difference quotient of the reference forward function
+            let hstep = 1e-6 * (1.0 + cabs(iv.got));
+            let fprime = dist((iv.fwd)((iv.got.0 + hstep, iv.got.1)), back) / hstep;
+            if fprime.is_finite() {
+                cx.chk(k_name, dist(back, iv.arg), fprime * amp_inv + cabs(iv.arg) * (1.0 + fprime), K_INV, || format!("{}(z) = {:?}, mapped back to {:?}", iv.name, iv.got, back));
+            }
         }
         // principal value (not compared exactly on a cut, where only the signed-zero convention decides)
         let on_cut = p.on_axis && near_cut_discontinuity(iv.refv, iv.at);
@@ -340,7 +408,7 @@ fn run(case: &mut Case) -> Result<Outcome, String> {
                 "asin" => "asin principal value", "acos" => "acos principal value", "atan" => "atan principal value", "asec" => "asec principal value", "acsc" => "acsc principal value", "acot" => "acot principal value",
                 "asinh" => "asinh principal value", "acosh" => "acosh principal value", "atanh" => "atanh principal value", "asech" => "asech principal value", "acsch" => "acsch principal value", _ => "acoth principal value",
             };
-            cx.chk(k_name, dist(iv.got, r), (1.0 + cabs(r)) * amp_inv, K_INV, || format!("{}(z) = {:?}, Kahan-style principal value {:?}", iv.name, iv.got, r));
+            cx.chk(k_name, dist(iv.got, r), amp_inv, K_INV, || format!("{}(z) = {:?}, Kahan-style principal value {:?}", iv.name, iv.got, r));
         }
     }
     if skipped_sing {
@@ -407,7 +475,7 @@ impl Prop for C14 {
          2/8 within 1e-9..1e-1 of a branch point +-1, +-i; exponents w real or complex with |w| <= 3; bases for log. All public functions are evaluated at every point: exp, ln, sqrt, pow, powf, log, polar; sin, cos, tan, sec, csc, cot and their \
          inverses; sinh, cosh, tanh, sech, csch, coth and their inverses. Oracles: reference formulas coded differently (Smith division, hypot, Kahan square root, ln via ln(hypot)/atan2, closed forms, exponential definitions), \
          Pythagorean identities, reciprocals, z^w = exp(w ln z), polar round trip, each inverse g of f: f_ref(g(z)) = z and agreement with the Kahan-style principal value (not compared exactly on a cut), principal ranges of sqrt/ln/asin/acos, asin+acos = pi/2, \
-         reduction to the real std functions on the real axis. Tolerance K*eps*amplification (K = 400 forward, 4000 inverse; amplification stated per check in the source); points within 1e-6 of a pole or logarithmic singularity are skipped and counted. \
+         reduction to the real std functions on the real axis. Tolerance K*eps*amplification, K = 400 forward; K = 100 for the inverse functions, whose amplification is computed at the actual argument from the defining logarithmic formula (cancellation inside the logarithm, conditioning of the square root next to its branch point, conditioning of 1/z for the reciprocal-argument functions) - worst observed ratio on the pinned tree < 1.0 for all 24 inverse checks; points within 1e-6 of a pole or logarithmic singularity are skipped and counted. \
          Non-trivial: z outside the open first quadrant, or within 1e-3 of an axis (relative) or of a branch point. distinct = distinct decoded choice sequence."
             .into()
     }
